@@ -59,6 +59,10 @@ let handle = function
   | "rdx" :: code :: rest -> rdx code rest
   | "rdh" :: code :: rest ->
       let h = c04_rdh (nn code) (List.map fval_tagged rest) in String.concat "," (List.map show_tok h)
+  | ["nord"; x; y] -> oc (c04_name_ord (b x) (b y))
+  | ["req"; x; y] -> ob (c04_relname_eq (b x) (b y))
+  | ["rord"; x; y] -> oc (c04_relname_ord (b x) (b y))
+  | ["rhash"; x] -> oh (c04_name_hash (b x))
   | ["ueq"; k1; w1; k2; w2] -> ob (c04_uncertain_eq (un k1 w1) (un k2 w2))
   | ["uhash"; k1; w1] -> oh (c04_uncertain_hash (un k1 w1))
   | ["psuf"; m; p; k; y] ->
